@@ -159,6 +159,7 @@ type Spelling struct {
 	LegacyDefs     bool  // "definitions" + "#/definitions/"
 	BothDefs       bool  // both keywords with identical content
 	UpperRefPrefix bool  // "#/$DEFS/" (prefix match is case-insensitive)
+	StaleLegacy    bool  // with BothDefs: the legacy container holds a stale copy (required lists dropped)
 	PointerOther   bool  // pointers name the other container keyword than the one the document uses
 	TypeAsList     bool  // every single type as one-element list
 	AnyAsTrue      bool  // true instead of {} where allowed
@@ -441,6 +442,15 @@ func (f *File) Render() jv.V {
 		}
 		dv := jv.V{K: jv.Obj, O: do}
 		switch {
+		case sp.BothDefs && sp.StaleLegacy:
+			add("$defs", dv)
+			stale := dv.Clone()
+			for i := range stale.O {
+				if stale.O[i].V.K == jv.Obj {
+					stale.O[i].V = stale.O[i].V.Del("required").Del("minLength").Del("minimum").Del("minItems")
+				}
+			}
+			add("definitions", stale)
 		case sp.BothDefs:
 			add("$defs", dv)
 			add("definitions", dv.Clone())
